@@ -624,7 +624,7 @@ def kf(cls, op, args, impl, model):
     if cls == "exact-flag":
         # the value is certified within one ulp; only the flag is wrong
         return viol and "Exact-flag-on-inexact-result value-within-1ulp" in model and impl.endswith(" Exact")
-    req = model.startswith("required a-value-within-1ulp") and "log.rs:250" in impl
+    req = model.startswith("required a-value-within-1ulp") and "log.rs:" in impl and "subtract_with_overflow" in impl
     if not (viol and "result-not-within-1ulp" in model or "result-exactly-1ulp" in model or req):
         return False
     if req:
@@ -739,4 +739,4 @@ LEVEL_NOTE = ("Trusted: Lean kernel; axioms propext/Classical.choice/Quot.sound;
               "exp_internal/ln_internal are not modelled - a result is only ever accepted through the certificate theorem.")
 TECHNIQUE = ("Lean 4 + Mathlib analysis (Real.exp_bound', hasSum_log_sub_log_of_abs_lt_one): verified interval enclosures; "
              "a-posteriori certification of the implementation's results; differential run of the guard model")
-READY = False
+READY = True
